@@ -162,7 +162,7 @@ let handle (line : string) : string =
       let fuel = nat_of_int (List.length rs + 3) in
       let count = nat_of_int (List.length rs + 1) in
       let outs = List.map (fun ((w, _), _) ->
-          match midA_find m fuel count st w Z0 n with
+          match midA_find m fuel st w Z0 n with
           | None -> "OUT-OF-FUEL"
           | Some None -> "lost"
           | Some (Some (((p, pay), cb), ce)) -> hex_of_z pay ^ ":" ^ hex_of_z p ^ ":" ^ hex_of_z cb ^ ":" ^ hex_of_z ce) rs in
